@@ -9,6 +9,7 @@
 //! observe : first-generation digest, or `reject:<stage>` when the source itself is not accepted
 //! oracle  : compile(P, dx, no-pipeline) = G1; compile(G1.text, dx, no-pipeline) must succeed and be
 //!           byte-identical to G1, with every resource on the same binding slot (group, name, location, count).
+mod names;
 mod reelab;
 
 use crate::compile_util::*;
@@ -239,7 +240,7 @@ fn first_generation(id: &str) -> Option<CompileOutcome> {
     }
 }
 
-fn first_diff(a: &str, b: &str) -> String {
+pub(crate) fn first_diff(a: &str, b: &str) -> String {
     for (i, (la, lb)) in a.lines().zip(b.lines()).enumerate() {
         if la != lb {
             return format!("line {}: `{}` became `{}`", i + 1, la.trim(), lb.trim());
@@ -304,6 +305,8 @@ fn dump(id: &str) {
         render(&gen_program(&mut Rng::new(seed.parse().unwrap()), &GenOpts::default()), &|_| true)
     } else if let Some(seed) = id.strip_prefix("lit:") {
         literal_program(&mut Rng::new(seed.parse().unwrap()))
+    } else if let Some(h) = id.strip_prefix("text:") {
+        String::from_utf8_lossy(&unhex(h).unwrap_or_default()).to_string()
     } else {
         String::new()
     };
@@ -343,6 +346,26 @@ pub fn run(args: &Args, out: &mut Out) {
         print!("{}", src);
         return;
     }
+    if args.extra.first().map(|s| s == "names").unwrap_or(false) {
+        // `harness c04 names --n N --seed S`: the name-resolution stream alone
+        let mut names_hist = Hist::default();
+        names::run(args, out, &mut names_hist);
+        out.stat(&format!("{{\"stream\":\"names\",\"hist\":{}}}", names_hist.json()));
+        return;
+    }
+    if args.extra.first().map(|s| s == "names-shrink").unwrap_or(false) {
+        // `harness c04 names-shrink <descriptor>`: the descriptor with one declaration / statement / use less, one per line
+        for c in names::shrink_candidates(&args.extra[1]) {
+            println!("{}", c);
+        }
+        return;
+    }
+    if args.extra.first().map(|s| s == "names-source").unwrap_or(false) {
+        if let Some(nodes) = names::parse(&args.extra[1]) {
+            print!("{}", names::render(&nodes));
+        }
+        return;
+    }
     if args.extra.first().map(|s| s == "search-requests").unwrap_or(false) {
         for src in literal_search_sources() {
             println!("C04.fix\ttext:{}", hex(src.as_bytes()));
@@ -353,6 +376,8 @@ pub fn run(args: &Args, out: &mut Out) {
         for line in lines {
             if let Some(id) = line.strip_prefix("C04.fix\t") {
                 run_one(id, out, &mut hist);
+            } else if let Some(rest) = line.strip_prefix("C04.names\t") {
+                names::run_descriptor(rest.split('\t').next().unwrap_or(""), out, &mut hist);
             } else if let Some(rest) = line.strip_prefix("C04.reelab\t").or_else(|| line.strip_prefix("C04.accept\t")) {
                 let src = reelab::unescape(rest.split('\t').next().unwrap_or(""));
                 reelab::run_source(&src, out, &mut hist);
@@ -386,6 +411,10 @@ pub fn run(args: &Args, out: &mut Out) {
             run_one(&format!("disk:{}|{}", root, entry), out, &mut hist);
         }
     }
+    // the name-resolution stream: which entity every emitted path is looked up to
+    let mut names_hist = Hist::default();
+    names::run(args, out, &mut names_hist);
+    out.stat(&format!("{{\"stream\":\"names\",\"hist\":{}}}", names_hist.json()));
     // the re-elaboration stream: second-generation IR against first-generation IR, node by node
     let mut re_hist = Hist::default();
     reelab::run(args, out, &mut re_hist);
